@@ -281,6 +281,14 @@ fn run_client(cid: usize, sc: ClientScript, server: SocketAddr, out: Arc<Mutex<C
             let _ = s.shutdown(humsim::net::Shutdown::Write);
             let _ = reader.join();
         }
+        "drop" => {
+            // the client process goes away: the socket is closed in both directions, so whatever
+            // the server writes to it from now on fails
+            out.lock().unwrap().close_sent_at = Some(sim::decision_index());
+            stop.store(true, Ordering::SeqCst);
+            let _ = s.shutdown(humsim::net::Shutdown::Both);
+            let _ = reader.join();
+        }
         "close-near-timeout" => {
             // stop answering pings (but stay reachable); the server last heard a pong at about
             // last_pong_ns, so it will observe the timeout at about last_pong_ns + timeout
@@ -327,20 +335,20 @@ impl Prop for C12 {
         }
     }
     fn rule(&self) -> &'static str {
-        "One case = 1..8 reference clients each running a script over {connect at a time, send text/binary messages (possibly fragmented, bursts of several within one poll interval; plain, asking the handler for a unicast reply, asking for a broadcast), ping, sleep} and ending by Close frame, abrupt FIN, going silent (partition, with heartbeat on) or staying connected; an external AsyncSender thread issuing unicasts and broadcasts (3..60 KB ones when a slow-reading client with a 600..4000-byte receive window is present) at scripted virtual times; handler pools of 1..8 threads; poll interval none / 1..10 ms; heartbeat off or (interval, timeout); linked and unlinked construction; then the shutdown signal. All under one seeded schedule (random / sticky / PCT / round-robin) of the poll loop, the pool, the front App and the clients. Distinct = distinct event-log shape (per client: connect / message count / disconnect, order class) plus configuration; non-trivial = at least two clients or one client with at least two messages, and at least one server-side send."
+        "One case = 1..8 reference clients each running a script over {connect at a time, send text/binary messages (possibly fragmented, bursts of several within one poll interval; plain, asking the handler for a unicast reply, asking for a broadcast), ping, sleep} and ending by Close frame, abrupt FIN, closing the socket outright (server writes to it then fail), going silent (partition, with heartbeat on) or staying connected; an external AsyncSender thread issuing unicasts and broadcasts (3..60 KB ones when a slow-reading client with a 600..4000-byte receive window is present) at scripted virtual times; handler pools of 1..8 threads; poll interval none / 1..10 ms; heartbeat off or (interval, timeout); linked and unlinked construction; then the shutdown signal. All under one seeded schedule (random / sticky / PCT / round-robin) of the poll loop, the pool, the front App and the clients. Distinct = distinct event-log shape (per client: connect / message count / disconnect, order class) plus configuration; non-trivial = at least two clients or one client with at least two messages, and at least one server-side send."
     }
     fn assumptions(&self) -> Vec<String> {
         vec![
             "handler invocation order equals dispatch order only with a one-thread handler pool; strict per-client order is asserted there, exactly-once always".into(),
             "a broadcast must reach a client exactly once if that client stays connected from before the broadcast is requested until the end of the scenario; clients in the admission/removal window at most once".into(),
-            "messages written before an abrupt FIN are still owed (TCP delivers them before the FIN); messages of a client that went silent are not".into(),
+            "messages written before an abrupt FIN (half-close: the client still reads) are still owed, TCP delivers them before the FIN; messages of a client that went silent, or that closed its socket outright (the server's Pong or reply then fails and the connection is given up), are dispatched at most once".into(),
             "heartbeat timeouts are 1.5 x, 2 x (Humphrey's default ratio) or several times the interval, and the network round trip is kept below an eighth of (timeout - interval): a live client's last pong is then never older than the timeout when it is checked".into(),
             "the streams map iterates in a fixed (seeded-hasher) order under the hook; RandomState order is not explored".into(),
             "poll intervals are 1..10 ms, or none at all (one case in eight): the loop then spins and virtual time advances only by the per-decision CPU cost, drawn up to 40 us in those cases".into(),
         ]
     }
     fn expected_counters(&self) -> Vec<&'static str> {
-        vec!["c12.clients", "c12.messages_sent", "c12.fragmented", "c12.bursts", "c12.unicast_replies", "c12.handler_broadcasts", "c12.external_sends", "c12.close_endings", "c12.fin_endings", "c12.silent_endings", "c12.close_near_timeout_endings", "c12.heartbeat_on", "c12.linked", "c12.unlinked", "c12.single_handler_thread", "c12.slow_reader", "c12.no_poll_interval", "net.silent_peer"]
+        vec!["c12.clients", "c12.messages_sent", "c12.fragmented", "c12.bursts", "c12.unicast_replies", "c12.handler_broadcasts", "c12.external_sends", "c12.close_endings", "c12.fin_endings", "c12.drop_endings", "c12.silent_endings", "c12.close_near_timeout_endings", "c12.heartbeat_on", "c12.linked", "c12.unlinked", "c12.single_handler_thread", "c12.slow_reader", "c12.no_poll_interval", "net.silent_peer"]
     }
     fn real_vs_stub(&self) -> (Vec<&'static str>, Vec<&'static str>) {
         (vec!["AsyncWebsocketApp::run, AsyncStream/AsyncSender, async_websocket_handler + handshake, WebsocketStream::recv_nonblocking/send/ping, ThreadPool, App"], vec!["threads, Mutex/mpsc, sleep, Instant, TCP, the streams HashMap's hasher (humsim)", "clients are harness reference RFC 6455 implementations"])
@@ -384,6 +392,12 @@ impl Prop for C12 {
         // blocked in a write to a slow reader would let other clients' heartbeats lapse, which is
         // Humphrey's design and not what this property judges)
         let mut rng2 = Rng::new(humsim::rng::mix(&[run_seed(seed, "C12", idx), 0xC12_0002]));
+        // half of the FIN endings become a full close of the socket (writes to it then fail)
+        for c in clients.iter_mut() {
+            if c.ending == "fin" && rng2.chance(1, 2) {
+                c.ending = "drop".into();
+            }
+        }
         // tight heartbeats: Humphrey's default ratio (timeout = 2 x interval) and 1.5 x
         let heartbeat = match heartbeat {
             Some((i, _)) if rng2.chance(1, 2) => Some((i, if rng2.chance(2, 3) { 2 * i } else { i + i / 2 })),
@@ -469,7 +483,7 @@ impl Prop for C12 {
         // "abrupt disconnect with heartbeat on")
         let mut scn = scn;
         for c in scn.clients.iter_mut() {
-            if hb.is_none() && (c.ending == "fin" || c.ending == "silent" || c.ending == "close-near-timeout") {
+            if hb.is_none() && (c.ending == "fin" || c.ending == "drop" || c.ending == "silent" || c.ending == "close-near-timeout") {
                 c.ending = "stay".into();
             }
         }
@@ -543,7 +557,7 @@ impl Prop for C12 {
             }
             // wait for the clients that end by themselves; then let the server settle
             for (ending, h) in hs {
-                if ending == "close" || ending == "fin" || ending == "close-near-timeout" {
+                if ending == "close" || ending == "fin" || ending == "drop" || ending == "close-near-timeout" {
                     let _ = h.join();
                 }
             }
@@ -573,6 +587,7 @@ impl Prop for C12 {
             match c.ending.as_str() {
                 "close" => rr.count("c12.close_endings", 1),
                 "fin" => rr.count("c12.fin_endings", 1),
+                "drop" => rr.count("c12.drop_endings", 1),
                 "silent" => rr.count("c12.silent_endings", 1),
                 _ => {}
             }
@@ -641,7 +656,11 @@ impl Prop for C12 {
                 rr.violate("C12/R1", format!("connect-handler-called-{}-times:{}", connects.len().min(2), cfg), format!("client {} completed the handshake; connect handler calls: {}", cid, connects.len()));
             }
             // R2 exactly once (multiset)
-            let owed = c.ending != "silent";
+            // a client that closed its socket outright cannot be answered any more: a Pong or a reply
+            // the server tries to write fails, and Humphrey then treats the connection as gone
+            // without reading what is still buffered; like a silent client its messages are
+            // dispatched at most once, not necessarily once
+            let owed = c.ending != "silent" && c.ending != "drop";
             if c.ending == "close-near-timeout" {
                 rr.count("c12.close_near_timeout_endings", 1);
             }
@@ -670,7 +689,7 @@ impl Prop for C12 {
                 }
             }
             // R3 disconnect exactly once per closed client
-            let closed = c.ending == "close" || c.ending == "fin" || c.ending == "close-near-timeout" || (c.ending == "silent" && hb.is_some());
+            let closed = c.ending == "close" || c.ending == "fin" || c.ending == "drop" || c.ending == "close-near-timeout" || (c.ending == "silent" && hb.is_some());
             if closed && discs.len() != 1 {
                 rr.violate("C12/R3", format!("disconnect-handler-called-{}-times:{}:{}", discs.len().min(2), c.ending, cfg), format!("client {} ended by {}; disconnect handler calls: {}", cid, c.ending, discs.len()));
             }
